@@ -405,7 +405,7 @@ package isobmff
 
 
 //@ func readCrxMoovBox
-//@   props C01 C02 C11
+//@   props C01 C02 C11 C06
 //@   requires wf1(b)
 //@   modifies stream(b.reader.br), b.remain, b.outer.remain, b.outer.outer.remain, b.reader.offset, foreign
 //@   ensures remOK(b) && pos(b.reader.br) >= old(pos(b.reader.br)) && noInc(b) && charged(b) && exactTop(b)
@@ -469,7 +469,7 @@ package isobmff
 
 
 //@ func (*Reader).readMdat
-//@   props C01 C02 C11
+//@   props C01 C02 C11 C06
 //@   requires wf1(b)
 //@   modifies stream(b.reader.br), b.remain, b.outer.remain, b.outer.outer.remain, b.reader.offset, foreign
 //@   ensures [C11] err == nil ==> b.remain == 0
